@@ -77,7 +77,7 @@ def run(tier, seed, replay=None):
             k = srv.fnode(["d", "PS3ISO", "g.dkey"], 32, cid="c18_dkey%d" % i, mtime=t + 4)
             k["raw"] = KEY.encode().hex()
             k3 = srv.fnode(["d", "disc1.iso"], 6 * 2048, cid="c18_3k3y%d" % i, mtime=t + 5)
-            k3["enc"] = {"kind": "3k3y-enc", "key": KEY, "regions": [[0, 3], [4, 6]], "sectors": 6, "extraLen": 0, "plainName": "c18_3kplain%d" % i}
+            k3["enc"] = {"kind": "3k3y-enc", "key": KEY, "regions": [[0, 2], [4, 6]], "sectors": 6, "extraLen": 0, "plainName": "c18_3kplain%d" % i}
             nodes = [srv.dnode(["d"], t), srv.dnode(["d", "PS3ISO"], t + 1), g, k, k3, srv.fnode(["d", "z.bin"], 100 + i, cid="c18_z%d" % i, mtime=t + 6)]
             rd = [{"op": "READ_FILE", "limit": 65536, "off": o} for o in (0, 65536, 131072)]
             worlds.append({"name": "net-members%d" % i, "aw": False, "nodes": nodes, "views": [{"vk": "dvd", "p": ["d"]}],
